@@ -53,7 +53,15 @@ class CallMixin:
             ty = self.param_type(c, fn, a, selfcls)
             if ty is None:
                 raise ContractError(f"{fr.qualname}: parameter {a.arg} needs a type in the contract")
-            fr.locals[a.arg] = self.sym_for_type(ty, a.arg)
+            if "|" in ty:  # union-typed parameter: one path per alternative
+                alts = [t.strip() for t in ty.split("|")]
+                ty = alts[self.dec.choose(len(alts))]
+            if ty == "none":
+                fr.locals[a.arg] = NONE
+            elif ty == "emptydict":
+                fr.locals[a.arg] = self.eval(ast.Dict(keys=[], values=[]), fr)
+            else:
+                fr.locals[a.arg] = self.sym_for_type(ty, a.arg)
 
     # ------------------------------------------------------------------ static resolution (for havoc sets)
     def static_callee(self, call: ast.Call, fr):
@@ -161,6 +169,12 @@ class CallMixin:
             return self.call_builtin(fv.name, args, kwargs, node, fr)
         if fv.kind == "method":
             recv = fv.recv
+            if isinstance(recv, VObj) and recv.cls == "OptionsDict" and fv.name == "get" and args \
+                    and isinstance(args[0], VStr) and args[0].kind == "lit" and args[0].a in SCHEMA["OptionsDict"]:
+                # OptionsDict keeps one backing dict behind item and attribute access (C10(c) proves the routes);
+                # every preset defines every documented key, so .get never falls back to the default
+                self.assumption_log.add("OptionsDict.get(k) == OptionsDict.<k> for the documented option keys")
+                return self.get_field(recv, args[0].a, self.use_old)
             if isinstance(recv, VObj) and recv.cls in CLASS_MODULE:
                 q = self.method_qualname(recv.cls, fv.name)
                 if q is None:
@@ -274,6 +288,10 @@ class CallMixin:
         raise Unsupported(f"builtin {name}")
 
     def len_special(self, a, node, fr):
+        if isinstance(a, VObj) and a.cls == "<opaque>":
+            ln = z3.Int(f"len({a.ref})")
+            self.assume_axiom(ln >= 0)
+            return VInt(ln)
         raise Unsupported(f"len of {a!r}")
 
     def is_digit_string(self, s: VStr, base):
